@@ -5,7 +5,11 @@ package main
 // Valid sessions (srvsession_gen.go) are recorded by an interactive reference run inside a
 // child process; every mutation of the recorded stream is then replayed against a fresh
 // server on an identical fresh tree / handler set (frame by frame, waiting for each reply,
-// except in the dedicated pipelining cases).  Oracles (srvsession_exec.go, ssRunC07):
+// except in the dedicated pipelining cases).  Besides the byte-wise mutations there are whole-FIELD
+// mutations: every integer field the judge finds in a recorded request (length prefix, id, string
+// lengths, offsets, lengths, pflags, attribute flags / words / counts) is replaced by boundary
+// values, the rest of the frame kept well-formed where that is possible, so that the request is
+// dispatched with the extreme value.  Oracles (srvsession_exec.go, ssRunC07):
 //   1. the process survives and Serve returns (20 s deadline; 3 s, with the stream still
 //      open, after a packet that is malformed beyond doubt);
 //   2. the responses are those of the reference run for the unmutated requests, legal reply
@@ -40,12 +44,56 @@ func ssBaseRnd() func() uint32 {
 	return r.Uint32
 }
 
+// c07FieldVals are the boundary values for a w-byte field: 0, 1, 2^31-1, 2^31, 2^32-1-k (k < 16), and
+// for 64-bit fields also 2^32, 2^63-1, 2^63, 2^64-1-k (k < 16).
+func c07FieldVals(w int) []uint64 {
+	v := []uint64{0, 1, 0x7FFFFFFF, 0x80000000}
+	for k := uint64(0); k < 16; k++ {
+		v = append(v, 0xFFFFFFF0+k)
+	}
+	if w == 8 {
+		v = append(v, 1<<32, 1<<63-1, 1<<63)
+		for k := uint64(0); k < 16; k++ {
+			v = append(v, ^uint64(0)-15+k)
+		}
+	}
+	return v
+}
+
+// c07FieldSession uses every request kind that carries integer fields on LIVE handles of every
+// kind (read, write, read-write, directory), with attribute blocks that carry every by-flag field
+// and an extended pair (so that the count word exists): the target of the field mutations.
+func c07FieldSession() []ssStep {
+	all := uint32(wire.ASize | wire.AUIDGID | wire.APerm | wire.ATime | wire.AExt)
+	return []ssStep{{Op: "init"},
+		{Op: "open", P1: "b.bin", Pf: wire.FRead}, // step 1: read handle
+		{Op: "read", H: 1, Off: 3, Len: 40},
+		{Op: "open", P1: "n1", Pf: wire.FWrite | wire.FCreat | wire.FTrunc, AF: wire.APerm}, // step 3: write handle
+		{Op: "write", H: 3, Off: 5, Len: 24},
+		{Op: "open", P1: "n2", Pf: wire.FRead | wire.FWrite | wire.FCreat, AF: all}, // step 5: read-write handle
+		{Op: "write", H: 5, Off: 0, Len: 32},
+		{Op: "read", H: 5, Off: 4, Len: 8},
+		{Op: "fstat", H: 5},
+		{Op: "fsetstat", H: 5, AF: all, Len: 9},
+		{Op: "opendir", P1: "d"}, // step 10: directory handle
+		{Op: "readdir", H: 10},
+		{Op: "setstat", P1: "a.txt", AF: all, Len: 11},
+		{Op: "setstat", P1: "d/x", AF: wire.ASize, Len: 3},
+		{Op: "mkdir", P1: "n3"},
+		{Op: "rename", P1: "d/y", P2: "n4"},
+		{Op: "ext", Ext: "statvfs@openssh.com", P1: "d"},
+		{Op: "ext", Ext: "posix-rename@openssh.com", P1: "n4", P2: "n5"},
+		{Op: "read", H: 1, Off: 4000, Len: 200}, // crosses the end of the file
+		{Op: "close", H: 5}, {Op: "close", H: 3}, {Op: "close", H: 10}, {Op: "close", H: 1},
+	}
+}
+
 var c07ValidTypes = []uint32{1, 3, 4, 5, 6, 7, 8, 9, 10, 11, 12, 13, 14, 15, 16, 17, 18, 19, 20, 200}
 
 func checkC07(c *lib.Ctx) {
 	r := c.R
 	thorough := c.Tier == "thorough"
-	r.Rule = "sessions: INIT + PRNG mix of 24 request kinds (OPEN r/w/rw, READ, WRITE, FSTAT, FSETSTAT, CLOSE, OPENDIR, READDIR, STAT, LSTAT, MKDIR, RMDIR, REMOVE, RENAME, SYMLINK, READLINK, REALPATH, SETSTAT, statvfs/posix-rename/hardlink/unknown extended), incl. failing opens, never-issued handles and (one flavour) handles of the wrong kind; recorded interactively against os-backed Server (absolute paths / working directory + relative paths) and RequestServer with counting in-memory handlers, allocator on and off. Mutations of the recorded stream, one per case: cut at byte k then EOF (quick: every frame boundary, boundary+-1 and PRNG offsets; thorough: every k), every frame's length field := 0,1,n-1,n+1,2^31-1,2^32-1, every frame's type byte := sample incl. 0,2,21,99,101-105,199,201,255 and other valid types (thorough: all 0..255), every string-length field := 0,n-1,n+1,n+1000,2^32-1, garbage appended, crafted raw frames (F3/short-attribute witnesses), and the same for path-only sessions sent pipelined. Each case runs on a fresh server in a child process; a case is non-trivial when the stream differs from the reference stream; distinct by (server config, session, mutation)"
+	r.Rule = "sessions: INIT + PRNG mix of 24 request kinds (OPEN r/w/rw, READ, WRITE, FSTAT, FSETSTAT, CLOSE, OPENDIR, READDIR, STAT, LSTAT, MKDIR, RMDIR, REMOVE, RENAME, SYMLINK, READLINK, REALPATH, SETSTAT, statvfs/posix-rename/hardlink/unknown extended), incl. failing opens, never-issued handles and (one flavour) handles of the wrong kind; recorded interactively against os-backed Server (absolute paths / working directory + relative paths) and RequestServer with counting in-memory handlers, allocator on and off. Mutations of the recorded stream, one per case: cut at byte k then EOF (quick: every frame boundary, boundary+-1 and PRNG offsets; thorough: every k), every frame's length field := 0,1,n-1,n+1,2^31-1,2^32-1, every frame's type byte := sample incl. 0,2,21,99,101-105,199,201,255 and other valid types (thorough: all 0..255), every string-length field := 0,n-1,n+1,n+1000,2^32-1, whole-field mutations (every integer field the judge finds in a request: frame length, id, version, string lengths, READ/WRITE offset and length, pflags, attribute flags, size, uid, gid, permissions, times, extended count := 0,1,2^31-1,2^31,2^32-16..2^32-1 and for 64-bit fields also 2^32,2^63-1,2^63,2^64-16..2^64-1; string lengths 0/1 also with the string cut to fit and attribute flags also with the block zero-padded to fit, so that the request is dispatched with the extreme value; quick: PRNG choice of 1 value per field (3 in the dedicated session that exercises read/write/read-write/directory handles and full attribute blocks), but ALL values for the offsets and lengths of that session's READs and WRITEs; thorough: all values), garbage appended, crafted raw frames (F3/short-attribute witnesses), and the same for path-only sessions sent pipelined. Each case runs on a fresh server in a child process; a case is non-trivial when the stream differs from the reference stream; distinct by (server config, session, mutation)"
 	base, err := ssMkBase(ssBaseRnd())
 	if err != nil {
 		r.Fail(lib.Failure{Kind: "tie", Key: "tmpdir", What: err.Error()})
@@ -122,6 +170,11 @@ func checkC07(c *lib.Ctx) {
 			addRef(cfg, s)
 		}
 	}
+	// the field-mutation session, on every configuration
+	fieldSess := c07Session{name: "fields", prog: c07FieldSession()}
+	for _, cfg := range cfgs {
+		addRef(cfg, fieldSess)
+	}
 	// special sessions
 	bigRead := c07Session{name: "read-300000", prog: []ssStep{{Op: "init"}, {Op: "open", P1: "b.bin", Pf: wire.FRead}, {Op: "read", H: 1, Len: 300000}, {Op: "close", H: 1}}}
 	for _, cfg := range []ssCfg{{Kind: "os", MaxTx: 1 << 19}, {Kind: "rs", MaxTx: 1 << 19}, {Kind: "os", Alloc: true, MaxTx: 1 << 19}, {Kind: "rs", Alloc: true, MaxTx: 1 << 19}} {
@@ -169,6 +222,44 @@ func checkC07(c *lib.Ctx) {
 			continue
 		}
 		if ri.sess.name == "read-300000" {
+			continue
+		}
+		// whole-field mutations: every integer field of every request := boundary values
+		if len(ri.res.Fields) == len(L) {
+			for i := range L {
+				op := ri.job.Prog[i].Op
+				flds := append([]ssField{{Off: 0, W: 4, Name: "frame-len", Val: uint64(L[i] - 4)}}, ri.res.Fields[i]...)
+				for _, f := range flds {
+					vals := c07FieldVals(f.W)
+					// quick: PRNG choice of values per field — except the offsets and lengths of the READs and
+					// WRITEs of the field session (live handles of every kind), which always get all of them
+					if !thorough && !(ri.sess.name == "fields" && (op == "read" || op == "write") && (f.Name == "offset" || f.Name == "len" || f.Name == "data-len")) {
+						n := 1
+						if ri.sess.name == "fields" {
+							n = 3
+						}
+						c.Rand.Shuffle(len(vals), func(a, b int) { vals[a], vals[b] = vals[b], vals[a] })
+						vals = vals[:n]
+					}
+					for _, v := range vals {
+						if v == f.Val {
+							continue
+						}
+						m := ssMut{Kind: "field", Frame: i, Off: f.Off, W: f.W, V64: v, Name: op + "." + f.Name}
+						addMut(ri, m)
+						if f.Str && v <= 1 { // the string follows its new length: still well-formed
+							m.Fit = true
+							addMut(ri, m)
+						}
+						if f.Flags && op != "mkdir" { // the attribute block follows its new flags: still well-formed
+							m.Pad = true
+							addMut(ri, m)
+						}
+					}
+				}
+			}
+		}
+		if ri.sess.name == "fields" {
 			continue
 		}
 		modes := []bool{false}
@@ -274,6 +365,15 @@ func checkC07(c *lib.Ctx) {
 		mk := j.Mut.Kind
 		if j.Mut.Pipe {
 			mk += "+pipelined"
+		}
+		if mk == "field" {
+			r.Hist("field/" + j.Mut.Name)
+			switch {
+			case j.Mut.Fit:
+				mk += "+string-fitted"
+			case j.Mut.Pad:
+				mk += "+attrs-padded"
+			}
 		}
 		r.Hist("mut/" + mk)
 		r.Hist("cfg/" + j.Cfg.String())
